@@ -29,10 +29,13 @@ inductive MergeStatus where
   | pushRemote (records : LogSeq)
 deriving Repr, DecidableEq
 
-/-- `AutoMerge::merge_patches`. -/
+def notIn (remote : LogSeq) (r : Rec) : Bool := !(commits remote).contains r.commit
+
+/-- `AutoMerge::merge_patches` (as repaired: a local record whose commit is already in the
+remote patch is not added a second time). -/
 def mergePatches (local_ remote : LogSeq) : MergeStatus :=
   if (commits local_).all (fun c => (commits remote).contains c) then .rewindLocal remote
-  else .pushRemote (sortByTime (local_ ++ remote))
+  else .pushRemote (sortByTime (local_.filter (notIn remote) ++ remote))
 
 /-- records after the newest record whose commit is `c` (`diff_records(Some(c))`) -/
 def after (l : LogSeq) (c : H) : Option LogSeq :=
